@@ -12,14 +12,19 @@ import (
 	"encoding/hex"
 	"encoding/json"
 	"fmt"
+	"math/big"
 	"sort"
 
 	"cosmossdk.io/math"
 	codectypes "github.com/cosmos/cosmos-sdk/codec/types"
+	"github.com/cosmos/cosmos-sdk/crypto/keys/ed25519"
 	"github.com/cosmos/cosmos-sdk/crypto/keys/secp256k1"
 	sdk "github.com/cosmos/cosmos-sdk/types"
 	banktypes "github.com/cosmos/cosmos-sdk/x/bank/types"
 	stakingtypes "github.com/cosmos/cosmos-sdk/x/staking/types"
+	gogoproto "github.com/cosmos/gogoproto/proto"
+	gethcommon "github.com/ethereum/go-ethereum/common"
+	ethtypes "github.com/ethereum/go-ethereum/core/types"
 	"github.com/ethereum/go-ethereum/crypto"
 	consensustypes "github.com/palomachain/paloma/v2/x/consensus/types"
 	evmtypes "github.com/palomachain/paloma/v2/x/evm/types"
@@ -41,6 +46,9 @@ var Templates = []string{
 	"createjob", "execjob", "uploaduser", "deployuser",
 	// consensus duties of the pigeons
 	"estimate", "sign", "relayerr", "relayok", "attesterr", "attestsplit", "balances", "refblock",
+	// contentious evidence: validators 0 and 1 report one thing, validator 2 another, validator 3 nothing (together 75 % of
+	// the power, no proof with 2/3); evidence from a validator that is not in the snapshot
+	"attestsplit3", "txsplit", "refsplit", "balsplit", "newval", "newvalalive", "attestnew",
 	// skyway
 	"send", "cancel", "batchest", "confirm", "batchclaim", "deposit", "lightsale", "claims2",
 	// tokenfactory
@@ -143,7 +151,10 @@ func (c *chain) tpl(name string) [][]byte {
 	ck := e.App.ConsensusKeeper
 	var out [][]byte
 	perVal := func(f func(v int, acc *env.Account) []sdk.Msg) {
-		for v := 0; v < nVals; v++ {
+		for v := 0; v < c.nv(); v++ {
+			if c.silent(v) {
+				continue // this validator's pigeon never runs
+			}
 			if ms := f(v, c.valAcc(v)); len(ms) > 0 {
 				out = append(out, c.sign(c.valAcc(v), ms...))
 			}
@@ -267,6 +278,92 @@ func (c *chain) tpl(name string) [][]byte {
 			}
 			return out
 		})
+	case "attestsplit3", "txsplit", "refsplit", "balsplit":
+		perVal(func(v int, a *env.Account) []sdk.Msg {
+			if v > 2 {
+				return nil
+			}
+			side := 0
+			if v == 2 {
+				side = 1
+			}
+			var out []sdk.Msg
+			for _, ch := range chains {
+				q := turnstoneQueue(ch)
+				switch name {
+				case "refsplit":
+					q = refblockQueue(ch)
+				case "balsplit":
+					q = balancesQueue(ch)
+				}
+				ms, _ := ck.GetMessagesForAttesting(ctx, q, c.val(v).ValAddr)
+				for _, m := range ms {
+					var proof gogoproto.Message
+					switch name {
+					case "attestsplit3":
+						proof = &evmtypes.SmartContractExecutionErrorProof{ErrorMessage: fmt.Sprintf("execution reverted (side %d)", side)}
+					case "txsplit":
+						proof = txProof(c, uint64(100+side))
+					case "refsplit":
+						proof = &evmtypes.ReferenceBlockAttestationRes{BlockHeight: uint64(7000 + side), BlockHash: "0x" + hex.EncodeToString(crypto.Keccak256([]byte{byte(side)}))}
+					case "balsplit":
+						cm, err := m.ConsensusMsg(e.App.AppCodec())
+						if err != nil {
+							continue
+						}
+						req, ok := cm.(*evmtypes.ValidatorBalancesAttestation)
+						if !ok {
+							continue
+						}
+						bal := make([]string, len(req.HexAddresses))
+						for i := range bal {
+							bal[i] = fmt.Sprintf("%d000000000000000000", 1+side)
+						}
+						proof = &evmtypes.ValidatorBalancesAttestationRes{BlockHeight: 5000, Balances: bal}
+					}
+					p, err := codectypes.NewAnyWithValue(proof)
+					must(err)
+					out = append(out, &consensustypes.MsgAddEvidence{Metadata: metaOf(a), MessageID: m.GetId(), QueueTypeName: q, Proof: p})
+				}
+			}
+			return out
+		})
+	case "newval":
+		// user 2 becomes a validator (bonded from the next block on, in no snapshot before the next build)
+		u := c.user(2)
+		pk := ed25519.GenPrivKeyFromSecret([]byte(fmt.Sprintf("verif-chainhistory-newval-%d", drv.Seed()))).PubKey()
+		m, err := stakingtypes.NewMsgCreateValidator(sdk.ValAddress(u.Addr).String(), pk, sdk.NewInt64Coin(env.BondDenom, 3_000_000),
+			stakingtypes.Description{Moniker: "newval"}, stakingtypes.NewCommissionRates(math.LegacyNewDecWithPrec(1, 1), math.LegacyNewDecWithPrec(2, 1), math.LegacyNewDecWithPrec(1, 2)), math.OneInt())
+		must(err)
+		out = append(out, c.sign(u, m))
+	case "newvalalive":
+		u := c.user(2)
+		out = append(out, c.sign(u, &valsettypes.MsgKeepAlive{Metadata: metaOf(u), PigeonVersion: "v2.4.0"}))
+	case "attestnew":
+		u := c.user(2)
+		va := sdk.ValAddress(u.Addr)
+		var ms []sdk.Msg
+		for _, ch := range chains {
+			q := turnstoneQueue(ch)
+			for _, m := range c.queueMsgs(q) {
+				if m.GetPublicAccessData() == nil && m.GetErrorData() == nil {
+					continue
+				}
+				already := false
+				for _, ev := range m.GetEvidence() {
+					already = already || ev.GetValAddress().Equals(va)
+				}
+				if already {
+					continue
+				}
+				p, err := codectypes.NewAnyWithValue(&evmtypes.SmartContractExecutionErrorProof{ErrorMessage: "execution reverted"})
+				must(err)
+				ms = append(ms, &consensustypes.MsgAddEvidence{Metadata: metaOf(u), MessageID: m.GetId(), QueueTypeName: q, Proof: p})
+			}
+		}
+		if len(ms) > 0 {
+			out = append(out, c.sign(u, ms...))
+		}
 	case "balances":
 		perVal(func(v int, a *env.Account) []sdk.Msg {
 			var out []sdk.Msg
@@ -439,4 +536,17 @@ func baseJob(id string) *schedulertypes.Job {
 	def, _ := json.Marshal(map[string]string{"ABI": "[]", "address": "0x00000000000000000000000000000000000a11ce"})
 	pay, _ := json.Marshal(map[string]string{"hexPayload": "deadbeef01"})
 	return &schedulertypes.Job{ID: id, Routing: schedulertypes.Routing{ChainType: "evm", ChainReferenceID: chainA}, Definition: def, Payload: pay, IsPayloadModifiable: true}
+}
+
+// txProof: proof of a remote transaction (really signed by validator 0's external key, not the one the queued message asks for)
+func txProof(c *chain, nonce uint64) *evmtypes.TxExecutedProof {
+	to := gethcommon.HexToAddress(compassAddr(chainA))
+	tx, err := ethtypes.SignTx(ethtypes.NewTx(&ethtypes.LegacyTx{Nonce: nonce, GasPrice: big.NewInt(1_000_000_000), Gas: 300_000, To: &to, Value: big.NewInt(0), Data: []byte{0xde, 0xad, 0xbe, 0xef}}),
+		ethtypes.NewEIP155Signer(big.NewInt(100)), c.w.ethKey[0])
+	must(err)
+	raw, err := tx.MarshalBinary()
+	must(err)
+	rc, err := (&ethtypes.Receipt{Status: ethtypes.ReceiptStatusSuccessful, CumulativeGasUsed: 21000, Logs: []*ethtypes.Log{}, TxHash: tx.Hash(), GasUsed: 21000}).MarshalBinary()
+	must(err)
+	return &evmtypes.TxExecutedProof{SerializedTX: raw, SerializedReceipt: rc}
 }
